@@ -1,15 +1,26 @@
 import HydroVerif.Proto
-import HydroVerif.Model.C08
+import HydroVerif.Model.C08Spec
 open HydroVerif HydroVerif.C08
 
 /-- C `(double) n` -/
 instance : NatCast Float := ⟨Float.ofNat⟩
+
+def fmtOptList' (xs : List (Option Float)) : String := fmtList (xs.map fmtOptFloat)
 
 def errName : Err → String
   | .emptyInput => "emptyInput" | .decreasingIndex => "decreasingIndex"
   | .bufferFull => "bufferFull" | .badMonth => "badMonth"
   | .lengthMismatch => "lengthMismatch" | .intOverflow => "intOverflow"
   | .badInterpolation => "badInterpolation" | .badTimestep => "badTimestep"
+  | .assertFailed => "assertFailed"
+
+def fmtKOut (k : KOut Float) : String :=
+  (match k.ierr with | none => "0" | some e => errName e) ++ " " ++ fmtOptList' k.outputs ++ " " ++ toString k.iend
+
+def fmtHOut (k : Option Err × List (Option Float)) : String :=
+  (match k.1 with | none => "0" | some e => errName e) ++ " " ++ fmtOptList' k.2
+
+def dateCode (t : Date) : Int := t.y * 10000 + (t.m : Int) * 100 + (t.d : Int)
 
 /-- `nan` ↔ `none` -/
 def optOfFloat (x : Float) : Option Float := if x.isNaN then none else some x
@@ -25,6 +36,24 @@ def fmtRatOpt : Option Rat → String
 
 def ratOptTok? (s : String) : Option (Option Rat) :=
   if s = "nan" then some none else (ratTok? s).map some
+
+/-- one operation of a history: `sv:i:x` `si:i:k` `sc:r:x` `ca:op:maxnan` `ch:maxnan` -/
+def histOp? (s : String) : Option (HOp Float) :=
+  match s.splitOn ":" with
+  | ["sv", i, x] => match i.toNat?, floatTok? x with
+    | some i, some x => some (.setVal i (optOfFloat x)) | _, _ => none
+  | ["si", i, k] => match i.toNat?, k.toInt? with
+    | some i, some k => some (.setIdx i k) | _, _ => none
+  | ["sc", r, x] => match r.toNat?, floatTok? x with
+    | some r, some x => some (.scribble r (optOfFloat x)) | _, _ => none
+  | ["ca", op, mx] => match op.toInt?, mx.toInt? with
+    | some op, some mx => some (.callAgg op mx) | _, _ => none
+  | ["ch", mx] => mx.toInt?.map .callHomog
+  | _ => none
+
+def fmtAnswer : Except Err (List (Option Float)) → String
+  | .ok out => "ok " ++ fmtOptList out
+  | .error e => "err " ++ errName e
 
 def handle (toks : List String) : String :=
   match toks with
@@ -95,6 +124,111 @@ def handle (toks : List String) : String :=
       match m2dCubic y0 m0 (0 : Float) (vals.map optOfFloat) with
       | .ok months => "ok " ++ fmtNatList (months.map List.length) ++ " " ++ fmtFloatList months.flatten
       | .error e => "err " ++ errName e
+    | _, _, _ => "bad-op"
+  | ["aggspec", op, maxnan, idx, vals] =>
+    -- the SPECIFICATION side of `aggregate_spec` / `aggregate_per_group_any_carrier`, evaluated in Float
+    match op.toInt?, maxnan.toInt?, parseIntList? idx, parseFloatList? vals with
+    | some op, some mx, some idx, some vals =>
+      if idx.length ≠ vals.length then "bad-op" else
+      if !(nondecreasing idx) || idx.isEmpty then "err decreasingIndex" else
+      let spec := fmtOptList (aggregateSpec op mx (pairs idx vals))
+      let pg := fmtOptList (aggregatePerGroup op mx (pairs idx vals))
+      let ker := match aggregate op mx (pairs idx vals) with
+        | .ok out => fmtOptList out
+        | .error e => "err " ++ errName e
+      -- `aggregate_per_group_any_carrier` and `aggregate_spec_of_add_zero` executed in Float
+      "ok " ++ spec ++ " " ++ pg ++ (if ker = pg then " kernel=same" else " kernel=diff") ++
+        (if spec = pg then " spec=same" else " spec=diff")
+    | _, _, _, _ => "bad-op"
+  | ["homogspec", maxnan, idx, vals] =>
+    match maxnan.toInt?, parseIntList? idx, parseFloatList? vals with
+    | some mx, some idx, some vals =>
+      if idx.length ≠ vals.length then "bad-op" else
+      if !(nondecreasing idx) || idx.isEmpty then "err decreasingIndex" else
+      let spec := fmtOptList (flathomogenSpec mx (pairs idx vals))
+      let pg := fmtOptList (flathomogenPerGroup mx (pairs idx vals))
+      let ker := match flathomogen mx (pairs idx vals) with
+        | .ok out => fmtOptList out
+        | .error e => "err " ++ errName e
+      "ok " ++ spec ++ " " ++ pg ++ (if ker = pg then " kernel=same" else " kernel=diff") ++
+        (if spec = pg then " spec=same" else " spec=diff")
+    | _, _, _ => "bad-op"
+  | ["aggbuf", op, maxnan, idx, vals, buf, iend0] =>
+    match op.toInt?, maxnan.toInt?, parseIntList? idx, parseFloatList? vals, parseFloatList? buf, iend0.toInt? with
+    | some op, some mx, some idx, some vals, some buf, some i0 =>
+      if idx.length ≠ vals.length then "bad-op" else
+      fmtKOut (cAggregate op mx (pairs idx vals) (buf.map optOfFloat) i0)
+    | _, _, _, _, _, _ => "bad-op"
+  | ["homogbuf", maxnan, idx, vals, buf] =>
+    match maxnan.toInt?, parseIntList? idx, parseFloatList? vals, parseFloatList? buf with
+    | some mx, some idx, some vals, some buf =>
+      if idx.length ≠ vals.length then "bad-op" else
+      fmtHOut (cFlathomogen mx (pairs idx vals) (buf.map optOfFloat))
+    | _, _, _, _ => "bad-op"
+  | ["pyxagg", op, maxnan, idx, vals, buf, iend] =>
+    match op.toInt?, maxnan.toInt?, parseIntList? idx, parseFloatList? vals, parseFloatList? buf, parseIntList? iend with
+    | some op, some mx, some idx, some vals, some buf, some iend =>
+      match pyxAggregate op mx idx (vals.map optOfFloat) (buf.map optOfFloat) iend with
+      | .ok k => fmtKOut k
+      | .error e => "err " ++ errName e
+    | _, _, _, _, _, _ => "bad-op"
+  | ["pyxhomog", maxnan, idx, vals, buf] =>
+    match maxnan.toInt?, parseIntList? idx, parseFloatList? vals, parseFloatList? buf with
+    | some mx, some idx, some vals, some buf =>
+      match pyxFlathomogen mx idx (vals.map optOfFloat) (buf.map optOfFloat) with
+      | .ok k => fmtHOut k
+      | .error e => "err " ++ errName e
+    | _, _, _, _ => "bad-op"
+  | ["aggwb", op, maxnan, idx, vals] =>
+    match op.toInt?, maxnan.toInt?, parseIntList? idx, parseFloatList? vals with
+    | some op, some mx, some idx, some vals =>
+      match aggregateWB op mx idx (vals.map optOfFloat) with
+      | .ok out => "ok " ++ fmtOptList (out.map fun o => o.bind optOfFloat)
+      | .error e => "err " ++ errName e
+    | _, _, _, _ => "bad-op"
+  | ["homogwb", maxnan, idx, vals] =>
+    match maxnan.toInt?, parseIntList? idx, parseFloatList? vals with
+    | some mx, some idx, some vals =>
+      match flathomogenWB mx idx (vals.map optOfFloat) with
+      | .ok out => "ok " ++ fmtOptList (out.map fun o => o.bind optOfFloat)
+      | .error e => "err " ++ errName e
+    | _, _, _ => "bad-op"
+  | ["m2ds", interp, y0, m0, minthr, vals] =>
+    -- the returned daily Series: calendar-day stamps (yyyymmdd) and values
+    match y0.toInt?, m0.toNat?, floatTok? minthr, parseFloatList? vals with
+    | some y0, some m0, some thr, some vals =>
+      let fmtSer := fun (out : List (Date × Option Float)) =>
+        fmtIntList (out.map fun p => dateCode p.1) ++ " " ++ fmtOptList (out.map fun p => p.2.bind optOfFloat)
+      match m2dSeries Float.isNaN interp y0 m0 thr (vals.map optOfFloat) with
+      | .ok out =>
+        -- `m2dSeries_eq_stamped` executed in Float: the Series = the per-month lists of `m2d` stamped by `stampMonths`
+        let st := match m2d interp y0 m0 thr (vals.map optOfFloat) with
+          | .ok months => fmtSer (stampMonths y0 m0 months)
+          | .error e => "err " ++ errName e
+        "ok " ++ fmtSer out ++ (if st = fmtSer out then " stamped=same" else " stamped=diff")
+      | .error e => "err " ++ errName e
+    | _, _, _, _ => "bad-op"
+  | ["stampinfo", ys, ms, ds, hs] =>
+    match parseIntList? ys, parseNatList? ms, parseNatList? ds, parseNatList? hs with
+    | some ys, some ms, some ds, some hs =>
+      let stamps := (ys.zip (ms.zip (ds.zip hs))).map fun t => ({ y := t.1, m := t.2.1, d := t.2.2.1, h := t.2.2.2 } : Stamp)
+      s!"valid={decide (∀ t ∈ stamps, t.valid)} chrono={chrono stamps}"
+    | _, _, _, _ => "bad-op"
+  | ["aggwf", op, maxnan, idx, vals] =>
+    -- float64 aggregation index, given exactly as rationals (`nan` for NaN / inf)
+    match op.toInt?, maxnan.toInt?, allSome ((listToks idx).map ratOptTok?), parseFloatList? vals with
+    | some op, some mx, some idx, some vals =>
+      match aggregateWF op mx idx (vals.map optOfFloat) with
+      | .ok out => "ok " ++ fmtOptList out ++ " " ++ fmtIntList (idx.map castIdx)
+      | .error e => "err " ++ errName e
+    | _, _, _, _ => "bad-op"
+  | ["hist", idx, vals, ops] =>
+    -- a whole history on one set of arrays: the answers of the calls, then the final state
+    match parseIntList? idx, parseFloatList? vals, allSome ((listToks ops).map histOp?) with
+    | some idx, some vals, some ops =>
+      let r := histRun ({ idx := idx, vals := vals.map optOfFloat, outs := [] } : Hist Float) ops
+      "|".intercalate (r.2.map fmtAnswer) ++ " ;idx=" ++ fmtIntList r.1.idx ++ " ;vals=" ++ fmtOptList r.1.vals ++
+        " ;outs=" ++ "|".intercalate (r.1.outs.map fmtOptList)
     | _, _, _ => "bad-op"
   | ["ndays", y, m] =>
     match y.toInt?, m.toNat? with
